@@ -112,6 +112,18 @@ class Engine(CoreMixin, ExprMixin, StmtMixin, CallMixin, BuiltinMixin):
         for sname, sc in self.spec.schemas.items():
             for fn, ft in sc.fields.items():
                 inner = ft.inner if isinstance(ft, TOpt) else ft
+                if isinstance(ft, TList) and isinstance(ft.elem, (TRef, TPkt)) and sname.startswith('pkt:'):
+                    # a list of references held by a packet (Bundle.blocks): its elements were allocated before now
+                    key = (sname, fn)
+                    if key not in self.st.heap and key not in self.h0 and selfv is None:
+                        continue
+                    arr = self.heap_arr(key, ft)
+                    r, i = z3.Int('hc_r'), z3.Int('hc_i')
+                    lst = z3.Select(arr, r)
+                    el = L.l_get(ft, lst, i)
+                    self.assume(z3.ForAll([r, i], z3.Implies(z3.And(r > 0, r < c, i >= 0, i < L.l_len(ft, lst)),
+                                                             z3.And(el > 0, el < c)), patterns=[el]))
+                    continue
                 if not isinstance(inner, (TRef, TPkt)):
                     continue
                 key = (sname, fn)
@@ -577,7 +589,7 @@ class Engine(CoreMixin, ExprMixin, StmtMixin, CallMixin, BuiltinMixin):
                 ts = 'Ref[%s]' % sc.name
             if ts is None:
                 raise BindError('contract %s gives no type for parameter %s' % (fs.key, n))
-            if ts == 'AnyPkt' or ts.startswith('Ext['):
+            if ts == 'AnyPkt' or ts.startswith('Ext[') or ts.startswith('Class['):
                 out[n] = ts
             else:
                 out[n] = parse_type(ts)
@@ -806,7 +818,7 @@ class Engine(CoreMixin, ExprMixin, StmtMixin, CallMixin, BuiltinMixin):
         if not fs.no_inv_ensures:
             for c in invs:
                 self.ob_inv('invariant', c.label, c, c.label)
-        self.check_frame(fs, fs.modifies)
+        self.check_frame(fs, (self.cur_case or {}).get('modifies', fs.modifies))
 
     def ob_inv(self, kind, label, c, key):
         '''An invariant clause at exit.  If the clause reads nothing that was
@@ -861,7 +873,7 @@ class Engine(CoreMixin, ExprMixin, StmtMixin, CallMixin, BuiltinMixin):
         if not fs.no_inv_ensures:
             for c in invs:
                 self.ob_inv('invariant_on_raise', '%s.%s' % (match.exc, c.label), c, c.label)
-        self.check_frame(fs, match.modifies if match.modifies is not None else fs.modifies)
+        self.check_frame(fs, match.modifies if match.modifies is not None else (self.cur_case or {}).get('modifies', fs.modifies))
 
     def check_frame(self, fs, mods):
         allowed = set()
